@@ -342,3 +342,67 @@ func DecodeLabel(b Bits, m int) (label, rest Bits, ok bool) {
 	}
 	return label, b[p:].Clone(), true
 }
+
+// EncodeHashmapAug builds a HashmapAug n X Y tree:
+//
+//	ahm_edge#_ label:(HmLabel ~l n) {n = (~m) + l} node:(HashmapAugNode m X Y) = HashmapAug n X Y;
+//	ahmn_leaf#_ extra:Y value:X = HashmapAugNode 0 X Y;
+//	ahmn_fork#_ left:^(HashmapAug n X Y) right:^(HashmapAug n X Y) extra:Y = HashmapAugNode (n + 1) X Y;
+//
+// leafExtra gives the extra of a leaf, forkExtra combines the extras of two children. It returns the root
+// cell and the extra of the root (needed by HashmapAugE: ahme_root$1 root:^(...) extra:Y).
+func EncodeHashmapAug(entries []DictEntry, n int, leafExtra func(DictEntry) Bits, forkExtra func(l, r Bits) Bits, choose func(Bits, int, []int) int) (*RCell, Bits, error) {
+	if len(entries) == 0 {
+		return nil, nil, errors.New("empty HashmapAug has no cell form")
+	}
+	es := append([]DictEntry{}, entries...)
+	sort.Slice(es, func(i, j int) bool { return lessBits(es[i].Key, es[j].Key) })
+	for i := range es {
+		if len(es[i].Key) != n {
+			return nil, nil, fmt.Errorf("key %d has %d bits, want %d", i, len(es[i].Key), n)
+		}
+	}
+	var rec func(es []DictEntry, pos int) (*RCell, Bits, error)
+	rec = func(es []DictEntry, pos int) (*RCell, Bits, error) {
+		m := n - pos
+		first, last := es[0].Key[pos:], es[len(es)-1].Key[pos:]
+		l := 0
+		for l < len(first) && first[l] == last[l] {
+			l++
+		}
+		label := Bits(first[:l]).Clone()
+		form := ShortestForm(label, m)
+		if choose != nil {
+			var forms []int
+			for _, f := range LabelForms(label, m) {
+				if len(encodeLabel(label, m, f)) <= 700 {
+					forms = append(forms, f)
+				}
+			}
+			if len(forms) > 0 {
+				form = choose(label, m, forms)
+			}
+		}
+		b := encodeLabel(label, m, form)
+		if len(es) == 1 {
+			x := leafExtra(es[0])
+			b = append(append(b, x...), es[0].Value.Bits...)
+			if len(b) > 1023 {
+				return nil, nil, errors.New("leaf does not fit into a cell")
+			}
+			return NewRCell(b, false, es[0].Value.Refs...), x, nil
+		}
+		split := sort.Search(len(es), func(i int) bool { return es[i].Key[pos+l] })
+		lc, lx, err := rec(es[:split], pos+l+1)
+		if err != nil {
+			return nil, nil, err
+		}
+		rc, rx, err := rec(es[split:], pos+l+1)
+		if err != nil {
+			return nil, nil, err
+		}
+		x := forkExtra(lx, rx)
+		return NewRCell(append(b, x...), false, lc, rc), x, nil
+	}
+	return rec(es, 0)
+}
